@@ -191,10 +191,11 @@ def RwpObj.moveConstruct [OfScientific α] (src : RwpObj α) : RwpObj α × RwpO
   ({ ratio := src.ratio, rng := src.rng, hasInit := src.hasInit },
    { ratio := 0.5, rng := src.rng, hasInit := false })
 
-/-- `ResamplingWithPrior::operator=(ResamplingWithPrior&&)` **as coded**: the generator
-    (`Resampling::operator=`) and the initialisation model are moved, `prior_ratio_` is not assigned —
-    the target keeps the ratio it had. -/
-def RwpObj.moveAssign (tgt src : RwpObj α) : RwpObj α :=
-  { ratio := tgt.ratio, rng := src.rng, hasInit := src.hasInit }
+/-- `ResamplingWithPrior::operator=(ResamplingWithPrior&&)`: the generator (`Resampling::operator=`),
+    the initialisation model and `prior_ratio_` (commit f722f03) are those of the source; the
+    moved-from object is left with ratio `0.5` and no model.  Returns (target, moved-from source). -/
+def RwpObj.moveAssign [OfScientific α] (_tgt src : RwpObj α) : RwpObj α × RwpObj α :=
+  ({ ratio := src.ratio, rng := src.rng, hasInit := src.hasInit },
+   { ratio := 0.5, rng := src.rng, hasInit := false })
 
 end BFL.PF
